@@ -4,7 +4,7 @@ import importlib, json, os, sys
 ROOT = os.path.dirname(os.path.abspath(__file__))
 sys.path.insert(0, os.path.join(ROOT, "lib"))
 MODULES = ["props_storage", "props_num", "props_codec", "props_tx", "props_mtext", "props_wasm",
-           "props_ledger", "props_auth", "props_native", "props_system", "props_pools", "props_fee", "props_manifest", "props_life", "props_account", "props_ext"]
+           "props_ledger", "props_auth", "props_native", "props_system", "props_pools", "props_fee", "props_manifest", "props_life", "props_account", "props_ext", "props_ext2", "props_ext3"]
 reg = {}
 for m in MODULES:
     try:
